@@ -215,6 +215,11 @@ def subscript(it, n):
     if not isinstance(c, V):
         raise OutOfSubset(f"subscript of {c!r}")
     so = c.sort
+    if isinstance(so, S.TOpt) and isinstance(so.inner, S.TRef):
+        c = it.coerce(c, so.inner)
+        so = c.sort
+    if record_class(it, c) is not None:
+        return record_get(it, c, k, n, strict=True)
     if isinstance(so, S.TList):
         k = it.coerce(k, TInt)
         v = so.at(c, norm_index(it, c, k, n))
@@ -259,6 +264,103 @@ def do_slice(it, c, sl, node):
     raise OutOfSubset("slice on non-list")
 
 
+# ----------------------------------------------------------------------------------------- records (JSON-like dicts)
+def record_class(it, v):
+    if isinstance(v, V) and isinstance(v.sort, S.TRef) and v.sort.cls in it.m.classes and it.m.classes[v.sort.cls].record:
+        return it.m.classes[v.sort.cls]
+    return None
+
+
+def _const_key(k):
+    """the Python string of a literal key, or None"""
+    if isinstance(k, V) and k.sort is TStr:
+        for s_, t in S._str_lits.items():
+            if t.eq(k.t):
+                return s_
+        if z3.is_string_value(k.t):
+            return k.t.as_string()
+    return None
+
+
+def record_candidates(it, rec, k):
+    """[(field name, z3 condition `k == name`)] for a key value k"""
+    ck = _const_key(k)
+    if ck is not None:
+        return [(ck, z3.BoolVal(True))] if ck in rec.fields else []
+    return [(f, k.t == S.str_lit(f)) for f in rec.fields]
+
+
+def record_has(it, obj, k):
+    rec = record_class(it, obj)
+    out = []
+    for f, cond in record_candidates(it, rec, k):
+        v = it.get_field(obj, f)
+        present = z3.Not(v.terms[0]) if isinstance(v.sort, S.TOpt) else z3.BoolVal(True)
+        out.append(z3.And(cond, present))
+    return z3.Or(*out) if out else z3.BoolVal(False)
+
+
+def record_get(it, obj, k, node, default=None, strict=True):
+    """obj[k] (strict) or obj.get(k[, default])"""
+    rec = record_class(it, obj)
+    cands = record_candidates(it, rec, k)
+    if not it.spec and strict:
+        if it.branch(z3.Not(record_has(it, obj, k))):
+            raise PyRaise(ExcObj("KeyError", (), origin=getattr(node, "lineno", None)))
+    vals = []
+    for f, cond in cands:
+        v = it.get_field(obj, f)
+        if isinstance(v.sort, S.TOpt):
+            if strict:
+                v = v.sort.payload(v)
+            else:
+                # .get: absent key -> None; present -> its value (which may itself be None)
+                inner = v.sort.inner
+                osrt = inner if isinstance(inner, S.TOpt) else S.TOpt(inner)
+                pv = it.coerce(v.sort.payload(v), osrt)
+                v = osrt.ite(v.terms[0], osrt.none(), pv)
+        vals.append((cond, v))
+    if not vals:
+        if strict:
+            raise OutOfSubset(f"record {rec.name} has no key {k!r}")
+        return NONE if default is None else default
+    sorts = {repr(v.sort) for _, v in vals}
+    if len(sorts) > 1:
+        # keep the candidates of the most common sort only when the key is symbolic (others would be a type error for the caller)
+        raise OutOfSubset(f"record {rec.name}: symbolic key over fields of different sorts")
+    res = vals[-1][1]
+    for cond, v in reversed(vals[:-1]):
+        res = res.sort.ite(cond, v, res)
+    if default is not None and not strict:
+        d2 = it.coerce(default, res.sort)
+        res = res.sort.ite(res.sort.isnone(res) if isinstance(res.sort, S.TOpt) else z3.BoolVal(False), d2, res) if isinstance(res.sort, S.TOpt) else res
+    it.note_read(res)
+    return res
+
+
+def record_set(it, obj, k, v, node):
+    rec = record_class(it, obj)
+    cands = record_candidates(it, rec, k)
+    if not cands:
+        raise OutOfSubset(f"record {rec.name} has no key {k!r}")
+    if len(cands) == 1:
+        f = cands[0][0]
+        it.set_field(obj, f, wrap_present(it, v, rec.fields[f]))
+        return
+    # symbolic key: the field whose name equals the key is written, the others keep their value
+    for f, cond in cands:
+        so = rec.fields[f]
+        cur = it.get_field(obj, f)
+        it.set_field(obj, f, so.ite(cond, wrap_present(it, v, so), cur))
+
+
+def wrap_present(it, v, so):
+    """value stored under an optional key: outer Opt = present"""
+    if isinstance(so, S.TOpt):
+        return so.some(it.coerce(v, so.inner))
+    return it.coerce(v, so)
+
+
 # ----------------------------------------------------------------------------------------- membership
 def contains(it, c, x):
     if isinstance(c, tuple) and c[0] == "keys":
@@ -270,6 +372,8 @@ def contains(it, c, x):
         return z3.Exists([k], z3.And(d.sort.has(d, kv), it.eq(d.sort.get(d, kv), x)))
     if not isinstance(c, V):
         raise OutOfSubset(f"`in` on {c!r}")
+    if record_class(it, c) is not None:
+        return record_has(it, c, x)
     so = c.sort
     if isinstance(so, S.TSet):
         return so.mem(c, it.coerce(x, so.elem))
@@ -1088,6 +1192,10 @@ def sorted_(it, args, kwargs, node):
 def value_method(it, base, attr, node):
     so = base.sort
     bb = lambda fn: ("boundbuiltin", fn)
+    if record_class(it, base) is not None:
+        if attr == "get":
+            return bb(lambda k, d=None: record_get(it, base, k, node, default=d, strict=False))
+        raise OutOfSubset(f"method {attr} on record {base.sort.cls}")
 
     def writeback(nv):
         it.assign(_as_store(node.value), nv)
